@@ -23,3 +23,12 @@ Theorem C11_call_Fq_old_refuted :
   forall (V : Type) (v : V), exists pars, fst (call_Fq_entry_old V pars) <> pars.
 Proof. exact call_Fq_old_refuted. Qed.
 Print Assumptions C11_call_Fq_old_refuted.
+
+(* the model above gives a compiled kernel no memory of its own: a call is a function of its arguments and of the
+   buffers it overwrites.  What could falsify that silently is a C variable with static storage that is not const
+   (a memo of the last solution, a lazily filled table): the C sources the builtin models are compiled from are
+   scanned on every run (Gen/C11_statics.v) and there is none *)
+From SM Require Import Gen.C11_statics.
+Theorem C11_code_no_static_state : statics_scanned = true -> code_mutable_statics = [] /\ 0 < code_files_scanned.
+Proof. intros Ht. try solve [vm_compute in Ht; discriminate Ht]. all: split; [reflexivity | vm_compute; repeat constructor]. Qed.
+Print Assumptions C11_code_no_static_state.
